@@ -1,6 +1,8 @@
 // =============================================================================
 // TRUSTED PRELUDE (unit hosthdr): the parts of the `http` crate that `set_host_header` touches, as abstract stand-ins.
-// Used AFTER prelude/hostport.rs (which declares `Uri` with scheme_text / port_num and `Port<T>` with num()).
+// Used AFTER prelude/hostport.rs (`Uri`, `Port<T>` with num()) and together with prelude/hostport_vocab.rs,
+// prelude/hosthdr_vocab.rs (the ghost attributes and spec functions the contract of `set_host_header` mentions: shared with
+// unit `http`, which imports that contract).
 // Hand-written, never generated from /repo.  Every `external_body` / `uninterp` / `axiom` is an assumption.
 // Accessor names of `Request<B>` (version_s, method_s, uri_s, headers_s, ext_s, rest_s) are those of
 // prelude/http_types.rs so that the contract of this unit can be read against unit `http`.
@@ -12,13 +14,11 @@
 pub open spec fn header_char(c: char) -> bool { c == '\t' || (c as u32 >= 32 && c as u32 != 127) }
 pub open spec fn valid_header_text(s: Seq<char>) -> bool { forall|i: int| 0 <= i < s.len() ==> header_char(#[trigger] s[i]) }
 
-/// decimal rendering of a port number (`<u16 as Display>`): a non-empty string of ASCII digits
-pub uninterp spec fn dec_u16(p: u16) -> Seq<char>;
+/// decimal rendering of a port number (`<u16 as Display>`, `dec_u16` of prelude/hosthdr_vocab.rs): a non-empty string of ASCII digits
 pub broadcast axiom fn axiom_dec_u16_digits(p: u16)
     ensures (#[trigger] dec_u16(p)).len() >= 1, forall|i: int| 0 <= i < dec_u16(p).len() ==> '0' <= #[trigger] dec_u16(p)[i] <= '9';
 
-/// the text `format!("{}:{}", host, port)` produces: host, a colon, the decimal port
-pub open spec fn host_port_text(h: Seq<char>, p: u16) -> Seq<char> { h + seq![':'] + dec_u16(p) }
+// `host_port_text(h, p)` (the text `format!("{}:{}", host, port)` produces): prelude/hosthdr_vocab.rs
 
 /// STAND-IN FOR `format!("{}:{}", hostname, port)` (see the macro below): `Display for &str` writes the text itself,
 /// `Display for http::uri::Port<T>` is `fmt::Display::fmt(&self.port, f)` with `port: u16` (http 1.3.1 src/uri/port.rs).
@@ -38,8 +38,7 @@ macro_rules! format {
 
 // ---- http::Uri: host ----
 impl Uri {
-    /// `Uri::host()`: the host of the authority (IPv6 literals keep their brackets); None without an authority
-    pub uninterp spec fn host_text(&self) -> Option<Seq<char>>;
+    /// `Uri::host()` (ghost attribute `host_text()`: prelude/hosthdr_vocab.rs)
     #[verifier::external_body]
     pub fn host(&self) -> (r: Option<&str>)
         ensures (r is Some) == (self.host_text() is Some), r is Some ==> r->0@ == self.host_text()->0
@@ -70,8 +69,7 @@ impl std::fmt::Debug for InvalidHeaderValue {
     fn fmt(&self, f: &mut std::fmt::Formatter<'_>) -> std::fmt::Result { unimplemented!() }
 }
 impl HeaderValue {
-    /// the bytes of the value, as text
-    pub uninterp spec fn text(&self) -> Seq<char>;
+    // (ghost attribute `text()`: prelude/hosthdr_vocab.rs)
     /// `HeaderValue::from_str`: accepts exactly header-value-legal text and stores it unchanged
     #[verifier::external_body]
     pub fn from_str(src: &str) -> (r: Result<HeaderValue, InvalidHeaderValue>)
@@ -83,16 +81,11 @@ impl HeaderValue {
 #[verifier::external_body]
 pub struct HeaderMap { _p: () }
 impl HeaderMap {
-    /// all values stored under `n`, in insertion order (empty = the name is absent)
-    pub uninterp spec fn all_s(&self, n: HeaderName) -> Seq<HeaderValue>;
+    // (ghost attributes `all_s(n)`, `full_s()`: prelude/hosthdr_vocab.rs)
     /// first value stored under `n` (what `HeaderMap::get` returns; same notion as `get_s` of prelude/http_types.rs)
     pub open spec fn get_s(&self, n: HeaderName) -> Option<HeaderValue> {
         if self.all_s(n).len() > 0 { Some(self.all_s(n)[0]) } else { None }
     }
-    /// the map cannot take one more name: `try_reserve_one` would have to grow the index table beyond
-    /// MAX_SIZE = 1 << 15 slots (http 1.3.1 src/header/map.rs; that is at 24576 distinct names)
-    pub uninterp spec fn full_s(&self) -> bool;
-
     /// `HeaderMap::entry(key)` = `key.try_entry(self).expect("size overflows MAX_SIZE")`: it RESERVES room for one more
     /// name before it looks the key up (`try_entry2`: `self.try_reserve_one()?`), so it PANICS on a full map whether or
     /// not the key is present.  Prophecy form: `fin()` of the entry is what the map holds under `key` when the entry's
